@@ -78,7 +78,8 @@ Record proc_ok (q : proc) : Prop := {
   ok_batch_tnil : p_sem q = Some SB -> p_tnil q = true;
   ok_onceI : p_acqI q <= 1;
   ok_onceB : p_acqB q <= b2n (p_tnil q);
-  ok_idle : (p_pc q = PIdle \/ p_pc q = PAcq \/ p_pc q = PAcqErr) -> p_acqI q = 0 /\ p_tnil q = false
+  ok_idle : (p_pc q = PIdle \/ p_pc q = PAcq \/ p_pc q = PAcqErr) -> p_acqI q = 0 /\ p_tnil q = false;
+  ok_yield : p_pc q = PYield -> p_tnil q = false   (* blocked inside yieldFunc: no yield has completed before *)
 }.
 
 Record Inv (s : state) : Prop := {
@@ -91,7 +92,7 @@ Record Inv (s : state) : Prop := {
 }.
 
 Lemma idle_ok : proc_ok idle_proc.
-Proof. constructor; simpl; try lia; try congruence; auto. intros [H|[H|H]]; auto. Qed.
+Proof. constructor; simpl; try lia; try congruence; auto. Qed.
 
 Lemma inv_init ci cb : Inv (init ci cb).
 Proof. constructor; simpl; try reflexivity; try lia. constructor. Qed.
@@ -144,6 +145,18 @@ Proof.
   apply Forall_upd; [apply (inv_procs s HI)|exact Hok].
 Qed.
 
+Ltac repl HI Hn :=
+  eapply inv_replace;
+  [ exact HI | exact Hn | simpl; reflexivity | simpl; try apply (inv_nopanic _ HI) | simpl; reflexivity | simpl; reflexivity | .. ].
+Ltac num := unfold holds, b2n in *; simpl in *; lia.
+Ltac numS Hs := unfold holds, b2n in *; simpl in *; rewrite ?Hs in *; simpl in *; lia.
+
+Lemma sem_none_unless_run (q : proc) : proc_ok q -> p_pc q <> PRun -> p_sem q = None.
+Proof.
+  intros [A1 A2 A3 A4 A5 A6 A7 A8 A9 A10] Hne.
+  destruct (p_sem q) eqn:Hs; [|reflexivity]. exfalso. apply Hne. apply A3. congruence.
+Qed.
+
 Lemma step_inv (s s' : state) (e : event) : Inv s -> step s e = Some s' -> Inv s'.
 Proof.
   intros HI Hst. unfold step in Hst. rewrite (inv_nopanic s HI) in Hst.
@@ -159,65 +172,63 @@ Proof.
   - (* ECancel *)
     destruct (nth_error (procs s) p) as [q|] eqn:Hn; [|discriminate].
     inversion Hst; subst s'; clear Hst.
-    pose proof (Forall_nth _ _ _ _ (inv_procs s HI) Hn) as [A1 A2 A3 A4 A5 A6 A7 A8 A9].
-    eapply inv_replace; eauto; simpl; try (apply (inv_nopanic s HI)); try (unfold holds; simpl; lia).
+    pose proof (Forall_nth _ _ _ _ (inv_procs s HI) Hn) as [A1 A2 A3 A4 A5 A6 A7 A8 A9 A10].
+    repl HI Hn; [num|num|simpl; lia|simpl; lia|].
     constructor; simpl; auto.
   - (* EFire *)
     destruct (nth_error (procs s) p) as [q|] eqn:Hn; [|discriminate].
-    pose proof (Forall_nth _ _ _ _ (inv_procs s HI) Hn) as [A1 A2 A3 A4 A5 A6 A7 A8 A9].
+    pose proof (Forall_nth _ _ _ _ (inv_procs s HI) Hn) as [A1 A2 A3 A4 A5 A6 A7 A8 A9 A10].
     destruct (p_pc q) eqn:Hpc; try discriminate; inversion Hst; subst s'; clear Hst;
-      (eapply inv_replace; eauto; simpl; try (apply (inv_nopanic s HI)); try (unfold holds; simpl; lia);
-       constructor; simpl; auto; try (rewrite Hpc; intuition congruence)).
+      (repl HI Hn; [num|num|simpl; lia|simpl; lia|];
+       constructor; simpl; auto; rewrite Hpc; intuition congruence).
   - (* EAcquire *)
     destruct (nth_error (procs s) p) as [q|] eqn:Hn; [|discriminate].
-    pose proof (Forall_nth _ _ _ _ (inv_procs s HI) Hn) as [A1 A2 A3 A4 A5 A6 A7 A8 A9].
+    pose proof (Forall_nth _ _ _ _ (inv_procs s HI) Hn) as Hok.
+    pose proof (sem_none_unless_run q Hok) as Hnone.
+    destruct Hok as [A1 A2 A3 A4 A5 A6 A7 A8 A9 A10].
     destruct (p_pc q) eqn:Hpc; try discriminate; inversion Hst; subst s'; clear Hst.
-    eapply inv_replace; eauto; simpl; try (apply (inv_nopanic s HI)); try (unfold holds; simpl; lia).
-    constructor; simpl; auto; try congruence.
-    intros Hs. specialize (A3 Hs). congruence.
+    assert (Hs : p_sem q = None) by (apply Hnone; congruence).
+    repl HI Hn; [num|num|simpl; lia|simpl; lia|].
+    unfold with_pc. constructor; simpl; auto; try congruence.
   - (* EGrant *)
     destruct (nth_error (procs s) p) as [q|] eqn:Hn; [|discriminate].
-    pose proof (Forall_nth _ _ _ _ (inv_procs s HI) Hn) as [A1 A2 A3 A4 A5 A6 A7 A8 A9].
-    assert (Hnone : p_pc q <> PRun -> p_sem q = None).
-    { intros Hne. destruct (p_sem q) eqn:Hs; [|reflexivity]. exfalso. apply Hne. apply A3. congruence. }
+    pose proof (Forall_nth _ _ _ _ (inv_procs s HI) Hn) as Hok.
+    pose proof (sem_none_unless_run q Hok) as Hnone.
+    destruct Hok as [A1 A2 A3 A4 A5 A6 A7 A8 A9 A10].
     destruct (p_pc q) eqn:Hpc; try discriminate.
     + (* PAcq *)
       destruct (curI s <? capI s) eqn:Hlt; [|discriminate]. apply Nat.ltb_lt in Hlt.
       inversion Hst; subst s'; clear Hst.
       assert (Hs : p_sem q = None) by (apply Hnone; congruence).
       destruct A9 as [Z1 Z2]; [auto|].
-      eapply inv_replace; eauto; simpl; try (apply (inv_nopanic s HI));
-        try (unfold holds, b2n; rewrite Hs; simpl; lia).
-      constructor; simpl; auto; try congruence; try (unfold holds, b2n in *; rewrite Hs in *; simpl in *; lia).
-      intros [H|[H|H]]; discriminate.
+      repl HI Hn; [numS Hs|numS Hs|simpl; lia|simpl; lia|].
+      constructor; simpl; auto; try congruence; try (numS Hs).
+      * rewrite Z2 in A8. simpl in A8. exact A8.
+      * intros [H|[H|H]]; discriminate.
     + (* PYield *)
       destruct (curB s <? capB s) eqn:Hlt; [|discriminate]. apply Nat.ltb_lt in Hlt.
       inversion Hst; subst s'; clear Hst.
       assert (Hs : p_sem q = None) by (apply Hnone; congruence).
-      eapply inv_replace; eauto; simpl; try (apply (inv_nopanic s HI));
-        try (unfold holds, b2n; rewrite Hs; simpl; lia).
-      assert (Hb0 : p_acqB q = 0 \/ p_tnil q = true).
-      { destruct (p_tnil q); [right; reflexivity|left]. simpl in A8. lia. }
-      constructor; simpl; auto; try congruence; try (unfold holds, b2n in *; rewrite Hs in *; simpl in *; lia).
-      * (* acqB <= 1: a process blocked in yieldFunc has a non-nil timer *)
+      repl HI Hn; [numS Hs|numS Hs|simpl; lia|simpl; lia|].
+      constructor; simpl; auto; try congruence; try (numS Hs).
+      * (* acqB <= 1: a process blocked in yieldFunc has not completed a yield before *)
         unfold holds, b2n in *. rewrite Hs in *. simpl in *.
-        destruct (p_tnil q) eqn:Ht; simpl in *; lia.
+        rewrite (A10 eq_refl) in A8. simpl in A8. lia.
       * intros [H|[H|H]]; discriminate.
   - (* EFail *)
     destruct (nth_error (procs s) p) as [q|] eqn:Hn; [|discriminate].
-    pose proof (Forall_nth _ _ _ _ (inv_procs s HI) Hn) as [A1 A2 A3 A4 A5 A6 A7 A8 A9].
+    pose proof (Forall_nth _ _ _ _ (inv_procs s HI) Hn) as Hok.
+    pose proof (sem_none_unless_run q Hok) as Hnone.
+    destruct Hok as [A1 A2 A3 A4 A5 A6 A7 A8 A9 A10].
     destruct (p_ctx q) eqn:Hctx; [|discriminate].
-    assert (Hnone : p_pc q <> PRun -> p_sem q = None).
-    { intros Hne. destruct (p_sem q) eqn:Hs; [|reflexivity]. exfalso. apply Hne. apply A3. congruence. }
     destruct (p_pc q) eqn:Hpc; try discriminate; inversion Hst; subst s'; clear Hst;
       (assert (Hs : p_sem q = None) by (apply Hnone; congruence));
-      (eapply inv_replace; eauto; simpl; try (apply (inv_nopanic s HI)); try (unfold holds; simpl; lia);
+      (repl HI Hn; [num|num|simpl; lia|simpl; lia|];
        constructor; simpl; auto; try congruence; try lia).
-    + intros _. apply A9. auto.
     + intros [H|[H|H]]; discriminate.
   - (* EYield *)
     destruct (nth_error (procs s) p) as [q|] eqn:Hn; [|discriminate].
-    pose proof (Forall_nth _ _ _ _ (inv_procs s HI) Hn) as [A1 A2 A3 A4 A5 A6 A7 A8 A9].
+    pose proof (Forall_nth _ _ _ _ (inv_procs s HI) Hn) as [A1 A2 A3 A4 A5 A6 A7 A8 A9 A10].
     destruct (p_pc q) eqn:Hpc; try discriminate.
     destruct (p_tnil q || negb (p_fired q)) eqn:Hnoop.
     + inversion Hst; subst s'. exact HI.
@@ -226,31 +237,34 @@ Proof.
       destruct (drop_sem s q) as [s1 q1].
       destruct D as (D1 & D2 & D3 & D4 & D5 & D6 & D7 & D8 & D9 & D10 & D11 & D12 & D13 & D14 & D15 & D16).
       inversion Hst; subst s'; clear Hst.
-      eapply inv_replace with (q' := with_pc q1 PYield); eauto; simpl; try rewrite D2; try reflexivity; try lia;
-        try (unfold holds, b2n in *; simpl; rewrite D5; simpl; lia).
-      unfold with_pc. constructor; simpl; try rewrite D5; auto; try congruence;
-        try (unfold holds, b2n in *; simpl; rewrite ?D5; simpl; lia).
-      * rewrite D10, D9. exact A4.
-      * intros HH. rewrite Htn in A6. destruct (p_sem q) as [[|]|]; try discriminate.
-      * rewrite D11. exact A7.
-      * rewrite D12, D7. exact A8.
-      * intros [H|[H|H]]; discriminate.
+      eapply inv_replace with (q' := with_pc q1 PYield);
+        [exact HI|exact Hn|simpl; rewrite D2; reflexivity|simpl; exact D1|simpl; exact D3|simpl; exact D4| | | | |].
+      * unfold holds at 2. simpl. rewrite D5. unfold b2n at 2. simpl. lia.
+      * unfold holds at 2. simpl. rewrite D5. unfold b2n at 2. simpl. lia.
+      * simpl. lia.
+      * simpl. lia.
+      * unfold with_pc. constructor; simpl; rewrite ?D5; auto; try congruence;
+          try (unfold holds; simpl; lia).
+        -- rewrite D10, D9. exact A4.
+        -- intros [H|[H|H]]; discriminate.
   - (* ERelease *)
     destruct (nth_error (procs s) p) as [q|] eqn:Hn; [|discriminate].
-    pose proof (Forall_nth _ _ _ _ (inv_procs s HI) Hn) as [A1 A2 A3 A4 A5 A6 A7 A8 A9].
+    pose proof (Forall_nth _ _ _ _ (inv_procs s HI) Hn) as [A1 A2 A3 A4 A5 A6 A7 A8 A9 A10].
     destruct (p_pc q) eqn:Hpc; try discriminate.
     pose proof (drop_sem_spec s p q HI Hn) as D.
     destruct (drop_sem s q) as [s1 q1].
     destruct D as (D1 & D2 & D3 & D4 & D5 & D6 & D7 & D8 & D9 & D10 & D11 & D12 & D13 & D14 & D15 & D16).
     inversion Hst; subst s'; clear Hst.
-    eapply inv_replace with (q' := with_pc q1 PEnd); eauto; simpl; try rewrite D2; try reflexivity; try lia;
-      try (unfold holds, b2n in *; simpl; rewrite D5; simpl; lia).
-    unfold with_pc. constructor; simpl; try rewrite D5; auto; try congruence;
-      try (unfold holds, b2n in *; simpl; rewrite ?D5; simpl; lia).
-    * rewrite D10, D9. exact A4.
-    * rewrite D11. exact A7.
-    * rewrite D12, D7. exact A8.
-    * intros [H|[H|H]]; discriminate.
+    eapply inv_replace with (q' := with_pc q1 PEnd);
+      [exact HI|exact Hn|simpl; rewrite D2; reflexivity|simpl; exact D1|simpl; exact D3|simpl; exact D4| | | | |].
+    * unfold holds at 2. simpl. rewrite D5. unfold b2n at 2. simpl. lia.
+    * unfold holds at 2. simpl. rewrite D5. unfold b2n at 2. simpl. lia.
+    * simpl. lia.
+    * simpl. lia.
+    * unfold with_pc. constructor; simpl; rewrite ?D5; auto; try congruence;
+        try (unfold holds; simpl; lia).
+      -- rewrite D10, D9. exact A4.
+      -- intros [H|[H|H]]; discriminate.
 Qed.
 
 Lemma run_inv (s s' : state) (es : list event) : Inv s -> run s es = Some s' -> Inv s'.
@@ -319,7 +333,7 @@ Lemma release_exactly_once (ci cb : nat) (es : list event) (s : state) (p : nat)
   (p_pc q <> PRun -> p_acqI q = p_relI q /\ p_acqB q = p_relB q).
 Proof.
   intros Hr Hn. pose proof (reachable_inv _ _ _ _ Hr) as HI.
-  pose proof (Forall_nth _ _ _ _ (inv_procs s HI) Hn) as [A1 A2 A3 A4 A5 A6 A7 A8 A9].
+  pose proof (Forall_nth _ _ _ _ (inv_procs s HI) Hn) as [A1 A2 A3 A4 A5 A6 A7 A8 A9 A10].
   repeat split; auto.
   - unfold b2n in A8. destruct (p_tnil q); lia.
   - destruct (p_sem q) eqn:Hs; [exfalso; apply H; apply A3; congruence|].
@@ -333,7 +347,7 @@ Lemma errors_only_if_ctx_done (ci cb : nat) (es : list event) (s : state) (p : n
   (0 < p_errs q -> p_ctx q = true) /\ (p_pc q = PAcqErr -> p_ctx q = true).
 Proof.
   intros Hr Hn. pose proof (reachable_inv _ _ _ _ Hr) as HI.
-  pose proof (Forall_nth _ _ _ _ (inv_procs s HI) Hn) as [A1 A2 A3 A4 A5 A6 A7 A8 A9].
+  pose proof (Forall_nth _ _ _ _ (inv_procs s HI) Hn) as [A1 A2 A3 A4 A5 A6 A7 A8 A9 A10].
   split; auto.
 Qed.
 
@@ -345,7 +359,7 @@ Proof.
   rewrite (inv_cntI s HI), (inv_cntB s HI). unfold holders.
   assert (Hx : forall i x, In x (procs s) -> quiet x = true -> holds i x = false).
   { intros i x Hin Hqx. pose proof (inv_procs s HI) as HF. rewrite Forall_forall in HF.
-    destruct (HF x Hin) as [A1 A2 A3 A4 A5 A6 A7 A8 A9].
+    destruct (HF x Hin) as [A1 A2 A3 A4 A5 A6 A7 A8 A9 A10].
     unfold holds. destruct (p_sem x) as [sm|] eqn:Hs; [|reflexivity].
     assert (p_pc x = PRun) by (apply A3; congruence). unfold quiet in Hqx. rewrite H in Hqx. discriminate. }
   split.
@@ -357,4 +371,150 @@ Proof.
     rewrite (Hx SB x (or_introl eq_refl) (Hq x (or_introl eq_refl))). simpl. apply IH.
     + intros q Hin. apply Hq. right. exact Hin.
     + intros i y Hin. apply Hx. right. exact Hin.
+Qed.
+
+(** ---- event-level statement of "fails only if the context is done": every EFail p in an executable
+    history is preceded by an ECancel p. *)
+Definition target (e : event) : option nat :=
+  match e with
+  | ENew => None
+  | ECancel p | EFire p | EAcquire p | EGrant p | EFail p | EYield p | ERelease p => Some p
+  end.
+
+Lemma drop_sem_ctx (s : state) (q : proc) : p_ctx (snd (drop_sem s q)) = p_ctx q /\ procs (fst (drop_sem s q)) = procs s.
+Proof.
+  unfold drop_sem. destruct (p_sem q) as [[|]|]; simpl; split; auto; unfold sem_release;
+    try destruct (curI s); try destruct (curB s); reflexivity.
+Qed.
+
+(** shape of a step as far as the process list and the ctx flags are concerned *)
+Lemma step_shape (s s' : state) (e : event) :
+  step s e = Some s' ->
+  (e = ENew /\ procs s' = procs s ++ [idle_proc]) \/
+  procs s' = procs s \/
+  (exists p0 q0 q0', target e = Some p0 /\ nth_error (procs s) p0 = Some q0 /\ procs s' = upd p0 q0' (procs s) /\
+                     (p_ctx q0' = p_ctx q0 \/ e = ECancel p0)).
+Proof.
+  unfold step. destruct (panicked s); [discriminate|].
+  destruct e as [|p|p|p|p|p|p|p]; try (destruct (nth_error (procs s) p) as [q|] eqn:Hn; [|discriminate]).
+  - intros H; inversion H; subst; simpl. left. auto.
+  - intros H; inversion H; subst; simpl. right. right. exists p, q. eexists. repeat split; eauto.
+  - destruct (p_pc q); try discriminate; intros H; inversion H; subst; simpl;
+      right; right; exists p, q; eexists; repeat split; eauto.
+  - destruct (p_pc q); try discriminate; intros H; inversion H; subst; simpl;
+      right; right; exists p, q; eexists; repeat split; eauto.
+  - destruct (p_pc q); try discriminate.
+    + destruct (curI s <? capI s); [|discriminate]. intros H; inversion H; subst; simpl.
+      right; right; exists p, q; eexists; repeat split; eauto.
+    + destruct (curB s <? capB s); [|discriminate]. intros H; inversion H; subst; simpl.
+      right; right; exists p, q; eexists; repeat split; eauto.
+  - destruct (p_ctx q) eqn:Hc; [|discriminate]. destruct (p_pc q); try discriminate; intros H; inversion H; subst; simpl;
+      right; right; exists p, q; eexists; repeat split; eauto.
+  - destruct (p_pc q); try discriminate. destruct (p_tnil q || negb (p_fired q)).
+    + intros H; inversion H; subst. right. left. reflexivity.
+    + pose proof (drop_sem_ctx s q) as [C1 C2]. destruct (drop_sem s q) as [s1 q1]. simpl in C1, C2.
+      intros H; inversion H; subst; simpl. rewrite C2.
+      right; right; exists p, q; eexists; repeat split; eauto.
+  - destruct (p_pc q); try discriminate.
+    pose proof (drop_sem_ctx s q) as [C1 C2]. destruct (drop_sem s q) as [s1 q1]. simpl in C1, C2.
+    intros H; inversion H; subst; simpl. rewrite C2.
+    right; right; exists p, q; eexists; repeat split; eauto.
+Qed.
+
+Lemma step_ctx (s s' : state) (e : event) (p : nat) (q' : proc) :
+  step s e = Some s' -> nth_error (procs s') p = Some q' -> p_ctx q' = true ->
+  e = ECancel p \/ exists q, nth_error (procs s) p = Some q /\ p_ctx q = true.
+Proof.
+  intros Hst Hn Hc. destruct (step_shape _ _ _ Hst) as [[He Hp]|[Hp|(p0 & q0 & q0' & Ht & Hn0 & Hp & Hcc)]].
+  - rewrite Hp in Hn. right.
+    destruct (Nat.lt_ge_cases p (length (procs s))) as [Hlt|Hge].
+    + rewrite nth_error_app1 in Hn by exact Hlt. exists q'. auto.
+    + rewrite nth_error_app2 in Hn by exact Hge.
+      destruct (p - length (procs s)) as [|k]; simpl in Hn.
+      * inversion Hn; subst. discriminate.
+      * destruct k; discriminate.
+  - rewrite Hp in Hn. right. exists q'. auto.
+  - rewrite Hp in Hn. destruct (Nat.eq_dec p0 p) as [->|Hne].
+    + rewrite (nth_error_upd_same _ _ _ _ Hn0) in Hn. inversion Hn; subst q0'.
+      destruct Hcc as [Hcc|Hcc]; [|left; exact Hcc].
+      right. exists q0. split; [exact Hn0|congruence].
+    + rewrite nth_error_upd_other in Hn by exact Hne. right. exists q'. auto.
+Qed.
+
+Lemma ctx_done_was_cancelled (ci cb : nat) (es : list event) (s : state) (p : nat) (q : proc) :
+  run (init ci cb) es = Some s -> nth_error (procs s) p = Some q -> p_ctx q = true -> In (ECancel p) es.
+Proof.
+  revert s q. induction es as [|e es IH] using rev_ind; intros s q Hr Hn Hc.
+  - simpl in Hr. inversion Hr; subst. destruct p; discriminate.
+  - rewrite run_app in Hr. destruct (run (init ci cb) es) as [s0|] eqn:Hr0; [|discriminate].
+    simpl in Hr. destruct (step s0 e) as [s1|] eqn:Hst; [|discriminate]. inversion Hr; subst s1.
+    apply in_or_app.
+    destruct (step_ctx _ _ _ _ _ Hst Hn Hc) as [He|(q0 & Hn0 & Hc0)].
+    + right. left. exact He.
+    + left. eapply IH; eauto.
+Qed.
+
+Lemma fail_only_after_cancel (ci cb : nat) (pre : list event) (p : nat) (s : state) :
+  run (init ci cb) (pre ++ [EFail p]) = Some s -> In (ECancel p) pre.
+Proof.
+  intros Hr. rewrite run_app in Hr. destruct (run (init ci cb) pre) as [s0|] eqn:Hr0; [|discriminate].
+  simpl in Hr. destruct (step s0 (EFail p)) as [s1|] eqn:Hst; [|discriminate].
+  unfold step in Hst. destruct (panicked s0); [discriminate|].
+  destruct (nth_error (procs s0) p) as [q|] eqn:Hn; [|discriminate].
+  destruct (p_ctx q) eqn:Hc; [|discriminate].
+  eapply ctx_done_was_cancelled; eauto.
+Qed.
+
+(** ---- soundness of trace acceptance: an accepted trace is an execution of the transition system *)
+Lemma trun_run (s s' : state) (ts : list tev) :
+  trun s ts = Some s' -> exists es, run s es = Some s'.
+Proof.
+  revert s. induction ts as [|t ts IH]; intros s Ht; simpl in Ht.
+  - inversion Ht; subst. exists []. reflexivity.
+  - destruct (expand s t) as [es|]; [|discriminate].
+    destruct (run s es) as [s1|] eqn:Hr; [|discriminate].
+    destruct (IH _ Ht) as [es' Hr']. exists (es ++ es'). rewrite run_app, Hr. exact Hr'.
+Qed.
+
+Lemma accepts_sound (ci cb : nat) (ts : list tev) :
+  accepts ci cb ts = true ->
+  exists es s, run (init ci cb) es = Some s /\ trun (init ci cb) ts = Some s /\
+               holders SI s <= ci /\ holders SB s <= cb /\ panicked s = false.
+Proof.
+  unfold accepts. destruct (trun (init ci cb) ts) as [s|] eqn:Ht; [|discriminate].
+  intros _. destruct (trun_run _ _ _ Ht) as [es Hr].
+  exists es, s. destruct (bounded _ _ _ _ Hr). pose proof (never_over_released _ _ _ _ Hr). auto.
+Qed.
+
+(** every prefix of an accepted trace is accepted: the bounds hold at every logged instant *)
+Lemma trun_app (s : state) (a b : list tev) :
+  trun s (a ++ b) = match trun s a with Some s' => trun s' b | None => None end.
+Proof.
+  revert s. induction a as [|t a IH]; intros s; simpl; [reflexivity|].
+  destruct (expand s t) as [es|]; [|reflexivity]. destruct (run s es); [apply IH|reflexivity].
+Qed.
+
+Lemma accepts_prefix (ci cb : nat) (a b : list tev) :
+  accepts ci cb (a ++ b) = true -> accepts ci cb a = true.
+Proof.
+  unfold accepts. rewrite trun_app. destruct (trun (init ci cb) a) as [s|] eqn:Ha; [|discriminate].
+  intros _. destruct (trun_run _ _ _ Ha) as [es Hr]. rewrite (never_over_released _ _ _ _ Hr). reflexivity.
+Qed.
+
+(** an occupancy observation accepted by the model equals the number of holders *)
+Lemma accepted_obs (ci cb : nat) (ts : list tev) (oI oB : nat) (s : state) :
+  trun (init ci cb) ts = Some s -> expand s (TObs oI oB) <> None ->
+  oI = holders SI s /\ oB = holders SB s.
+Proof.
+  intros Ht Hex. destruct (trun_run _ _ _ Ht) as [es Hr].
+  destruct (counter_is_holders _ _ _ _ Hr) as [E1 E2].
+  simpl in Hex. destruct (Nat.eqb (curI s) oI) eqn:H1; [|contradiction Hex; reflexivity].
+  destruct (Nat.eqb (curB s) oB) eqn:H2; [|contradiction Hex; reflexivity].
+  apply Nat.eqb_eq in H1. apply Nat.eqb_eq in H2. split; congruence.
+Qed.
+
+Lemma batch_cap_pos (c d : N) : (1 <= batch_cap c d)%N.
+Proof.
+  unfold batch_cap. cbv zeta. generalize (c / (if N.eqb d 0 then 4 else d))%N. intros x.
+  destruct (N.eqb x 0) eqn:H; [lia|]. apply N.eqb_neq in H. lia.
 Qed.
